@@ -11,7 +11,8 @@ from vlib.harness import Violation
 PID = "C13"
 RULE = ("parameter types: or-trees of depth 0..3 with %field annotations at every subset of inner nodes and leaves "
         "(exhaustive for all tree shapes with <=4 leaves over the name pool {a,b,default} with unique names; sampled "
-        "for deeper trees, duplicate names, 'root', root annotations, non-union roots); leaves int/nat/string/unit/"
+        "for deeper trees, duplicate names, 'root', root annotations, non-union roots, the bare annotation `%`, :type annotations on "
+        "any node); leaves int/nat/string/unit/"
         "pair; values: every leaf path x a generated leaf value. Oracle: reference entrypoint table (annotated nodes "
         "reachable through or + root): list_entrypoints has exactly those names with the right types; duplicate "
         "names rejected; for every full value v: to_parameters() gives a listed (e, a) and from_parameters(e, a) "
@@ -161,12 +162,14 @@ def nodes(shape, path=""):
     return [path] + nodes(shape[0], path + "0") + nodes(shape[1], path + "1")
 
 
-def build(shape, names, path="", leaf_i=[0]):
-    ann = ["%" + names[path]] if names.get(path) else []
+def build(shape, names, path="", leaf_i=[0], tnames=None):
+    ann = ["%" + names[path]] if names.get(path) is not None else []   # "" gives the bare annotation `%` (= no name)
+    if tnames and tnames.get(path):
+        ann.append(":" + tnames[path])
     if shape is None:
         t = dict(LEAF_TYPES[sum(map(int, path or "0")) % len(LEAF_TYPES)])
     else:
-        t = {"prim": "or", "args": [build(shape[0], names, path + "0"), build(shape[1], names, path + "1")]}
+        t = {"prim": "or", "args": [build(shape[0], names, path + "0", tnames=tnames), build(shape[1], names, path + "1", tnames=tnames)]}
     if ann:
         t["annots"] = ann
     return t
@@ -192,11 +195,13 @@ def sampled(draw):
     shape = draw(st.sampled_from(shapes(min(n, 6))))
     ns = nodes(shape)
     pool = ["a", "b", "c", "d", "e", "default", "root", "a", "do", "x_1"]
-    names = {}
+    names, tnames = {}, {}
     for p in ns:
         if draw(st.integers(0, 2)) == 0:
-            names[p] = draw(st.sampled_from(pool))
-    return {"t": build(shape, names), "k": draw(st.integers(0, 5))}
+            names[p] = draw(st.sampled_from(pool + ["", ""]))
+        if draw(st.integers(0, 5)) == 0:  # :type annotations never matter for entrypoints
+            tnames[p] = draw(st.sampled_from(["action", "t", "a"]))
+    return {"t": build(shape, names, tnames=tnames), "k": draw(st.integers(0, 5))}
 
 
 def _prop(case, stats):
